@@ -373,7 +373,13 @@ fn dash_unescape_and_trim(text: &str) -> String {
         out += trimmed;
 
         // append line ending
-        out += end;
+        if end == "\n" && trimmed.ends_with('\r') {
+            // A CR that only became the last character by trimming is part of the content.
+            // It must not merge with the line feed into a single CR LF line break.
+            out += "\r\n";
+        } else {
+            out += end;
+        }
     }
 
     out
